@@ -482,6 +482,10 @@ class Interp:
                 return v.a[1]
             if v.a is not None and v.a[0] == "P" and not v.a[2] and k in (0, 1, 2):
                 return Val(v.deg, ("C", "xyz"[k], v.a[1]))
+            if v.a is not None and v.a[0] == "P" and k is None and isinstance(e.slice, (ast.Name, ast.Subscript, ast.Attribute)):
+                # rows of a batch of vector-like values computed at once (numpy vectorised form): components are read with
+                # literal indices / .x .y .z in this code base, a variable index selects one element of the batch
+                return v
             return Val(v.deg if isnum(v.deg) else None, None)
         if isinstance(e, ast.BinOp):
             return self.binop(e)
@@ -538,6 +542,9 @@ class Interp:
         for k in e.keywords:
             self.ev(k.value)
         A = lambda i: args[i] if i < len(args) else UNK
+        seen = getattr(self.world, "seen", None)
+        if seen is not None:
+            seen.append((self, e, tail, args, self.ev(recv) if recv is not None and not (isinstance(recv, ast.Name) and recv.id in ("geom", "geometry", "np", "numpy", "math", "Vec")) else None))
         if tail in ZERO_DEG:
             return Val(0, ("S", Poly.atom("<" + au.src(e) + ">")))
         if tail == "len":
@@ -586,6 +593,12 @@ class Interp:
                 el = v.a[1]
                 n = ("S", Poly.atom("len(" + self.coll_key_of_list(e.args[0], v) + ")"))
                 return Val(el.deg, a_scale(el.a, n) if el.a is not None and el.a[0] in ("P", "V2", "C") else None)
+            return Val(v.deg if isnum(v.deg) else None, None)
+        if tail in ("mean", "average") and len(args) >= 1:
+            v = args[0]
+            if v.a is not None and v.a[0] == "L":
+                el = v.a[1]
+                return Val(el.deg, el.a if el.a is not None and el.a[0] in ("P", "V2", "C") else None)
             return Val(v.deg if isnum(v.deg) else None, None)
         if tail in ("max", "min", "amax", "amin") and args:
             dg = args[0].deg
